@@ -131,17 +131,28 @@ Lemma swap_ok k s who dir x b m to s' p : Inv k s -> fits128 x = true ->
 Proof.
   intros HI Hx H. destruct HI as [Hp0 Hp1 Hb0 Hb1 _ _ _ _ Hf].
   apply fits_true in Hx. unfold swap in H.
-  dstep H. dstep H. dstep H.
-  apply csub_ok in E0 as [? ->]. apply csub_ok in E1 as [? ->].
-  dstep H. rename v into c.
-  assert (Hfacts := swap_facts (if dir then bal1 s - pf1 s else bal0 s - pf0 s)
-                               (if dir then bal0 s - pf0 s else bal1 s - pf1 s) x (pfees s) c
-                               ltac:(destruct dir; lia) ltac:(destruct dir; lia) Hx Hf E0).
-  destruct Hfacts as (F1 & F2 & F3 & F4 & F5 & F6 & F7 & F8 & F9 & F10 & F11 & F12).
-  dstep H. dstep H. dstep H. dstep H. dstep H. dstep H. dstep H. dstep H.
-  apply must_ok in E8. apply fits_true in E8.
-  unfold res0, res1. cbv zeta.
-  destruct dir; inversion H; subst s' p; sproj; repeat split; try lia; try assumption.
+  dstep H. dstep H. apply ensure_ok in E0. apply andb_true_iff in E0 as [Fb0 Fb1]. apply fits_true in Fb0, Fb1.
+  destruct dir; cbv iota in H; cbn [bind] in H.
+  - dstep H. dstep H. dstep H.
+    apply csub_ok in E0 as [? ->]. apply csub_ok in E1 as [? ->]. apply csub_ok in E2 as [? ->].
+    replace (bal1 s + x - pf1 s - x) with (bal1 s - pf1 s) in H by lia.
+    dstep H.
+    match goal with Ec : compute_swap_cp _ _ _ _ = Ok ?c |- _ =>
+      assert (Hfacts := swap_facts (bal1 s - pf1 s) (bal0 s - pf0 s) x (pfees s) c ltac:(lia) ltac:(lia) Hx Hf Ec) end.
+    destruct Hfacts as (F1 & F2 & F3 & F4 & F5 & F6 & F7 & F8 & F9 & F10 & F11 & F12).
+    dstep H. dstep H. dstep H. dstep H. dstep H. dstep H. dstep H.
+    unfold res0, res1. cbv zeta.
+    inversion H; subst s' p; sproj; repeat split; try lia; try assumption.
+  - dstep H. dstep H. dstep H.
+    apply csub_ok in E0 as [? ->]. apply csub_ok in E1 as [? ->]. apply csub_ok in E2 as [? ->].
+    replace (bal0 s + x - pf0 s - x) with (bal0 s - pf0 s) in H by lia.
+    dstep H.
+    match goal with Ec : compute_swap_cp _ _ _ _ = Ok ?c |- _ =>
+      assert (Hfacts := swap_facts (bal0 s - pf0 s) (bal1 s - pf1 s) x (pfees s) c ltac:(lia) ltac:(lia) Hx Hf Ec) end.
+    destruct Hfacts as (F1 & F2 & F3 & F4 & F5 & F6 & F7 & F8 & F9 & F10 & F11 & F12).
+    dstep H. dstep H. dstep H. dstep H. dstep H. dstep H. dstep H.
+    unfold res0, res1. cbv zeta.
+    inversion H; subst s' p; sproj; repeat split; try lia; try assumption.
 Qed.
 
 Lemma swap_inv k s who dir x b m to s' p : Inv k s -> fits128 x = true ->
